@@ -278,7 +278,11 @@ func (b *basicCommonValidator) Validate(data interface{}) (res *Result) {
 
 	for _, enumValue := range b.Enum {
 		actualType := reflect.TypeOf(enumValue)
-		if actualType == nil { // Safeguard
+		if actualType == nil { // a null enum member matches a null value, and nothing else
+			if data == nil {
+				return nil
+			}
+
 			continue
 		}
 
